@@ -81,7 +81,9 @@ TPostLookup == Is("PostLookup") /\ (E.found <=> pending[E.id] # "none") /\ R!Pos
                /\ Step
 \* another upload attempt of a victim reaches the proxy: the previous one was aborted (PostAborted ; PostLookup,
 \* composed by hand) - the waiter found is the same one
-TPostRelookup == Is("PostLookup") /\ plook[E.id] # "none" /\ wreq[E.id] \in TVictims
+\* (the harness's report of the first cut and the proxy's look-up for that same attempt are written by two processes
+\* with nothing ordering them: the look-up may also be the first one, arriving after the report)
+TPostRelookup == Is("PostLookup") /\ (plook[E.id] # "none" \/ w[E.id] = "failed") /\ wreq[E.id] \in TVictims
                /\ w[E.id] \in {"forward", "backend", "retry", "upload", "failed"}   \* ("failed": the harness reports the fault at the first cut)
                /\ (E.found <=> pending[E.id] # "none")
                /\ plook' = [plook EXCEPT ![E.id] = IF pending[E.id] = "none" THEN "nf" ELSE pending[E.id]]
